@@ -168,7 +168,8 @@ func jsonAddKeyElements(s Entry, dict map[string]any) {
 		if _, exists := dict[schemaKeys[i]]; !exists {
 			// and finally we create the patheleme key attributes
 			dict[schemaKeys[i]] = treeElem.PathName()
-			treeElem = treeElem.GetParent()
 		}
+		// move up one key level, also if the key was present already
+		treeElem = treeElem.GetParent()
 	}
 }
